@@ -27,8 +27,12 @@ def is_entry(fn):
         return False
     if fn.get("vis") != "pub" and not os.environ.get("OHSA_ALL"):
         return False   # crate-private helpers are analysed in the context of their public callers
-    if private_self_type(fn):
-        return False   # impls on private helper types (lax::optic::Fwd/Rev, ForgetMonogamous): reached through their public users
+    if private_self_type(fn) and not (fn.get("impl_trait") == "lax::functor::traits::Functor"
+                                      and fn["name"] in ("map_operation", "map_object")):
+        return False   # impls on private helper types: reached through their public users — except their Functor
+                       # impls (ForgetMonogamous, lax::optic::Fwd/Rev), which the functor framework calls through the
+                       # trait object of a loop and which carry specs of their own (map_operation / map_object; `map_arrow` of Fwd/Rev
+                       # is a documented never-called panic and stays reachable only through the public users)
     m = fn.get("mac")
     if m and any("derive" in x or x in ("Clone", "PartialEq", "Debug", "Hash", "Eq") for x in m):
         return False
